@@ -346,6 +346,10 @@ def run_case(ctx, nix, np, path, rng, recipe, rep):
                     junk = rng.choice([np.full(sh, 1 + 2j), np.full(sh, None, dtype=object)])
                     if dt == "text" and junk.dtype == object:
                         junk = np.full(sh, 1 + 2j)
+                    if dt == "text" and rng.random() < 0.6:
+                        # text of the right kind that the file format cannot hold (embedded NUL, lone surrogate): refused at write time
+                        junk = np.full(sh, "ok", dtype=object)
+                        junk.flat[rng.randrange(junk.size)] = rng.choice(["nul\x00inside", "\ud800", "tail\udfff"])
                     try:
                         da.append(junk, axis=ax)
                         ctx.observe("unsupported_values_appended_without_error", {"dtype": dt, "values": str(junk.dtype)})
